@@ -163,3 +163,20 @@ Theorem int_end_in_limit a b : Z.abs a < 2 ^ 53 -> Z.abs b < 2 ^ 53 -> Z.abs (a 
 Proof.
   intros Ha Hb Hs. rewrite add_of_Z; try assumption; [apply in_lim64_of_Z; exact Hs|unfold max_parse_value in Hs; lia].
 Qed.
+
+(* ---------- status ----------
+   FULL intended statement (the decoder-image form of the two side conditions), NOT proved:
+
+     forall s e : F64, in_lim64 s = true -> in_lim64 e = true ->
+       spinner_time_ok s (f64_max_lit (D.sub e s) D.zero) /\
+       hold_time_ok s (D.sub (D.max s e) s)
+
+   i.e. with d = fl(e - s) clipped at 0:  fl(fl(s + d) - s) = d.  No counterexample among
+   5.2e6 random binary64 pairs (decimal texts with 0-4 digits, and raw bit patterns with
+   exponents 2^-20 .. 2^32, both signs), but the IEEE proof is not mechanised.  What IS false
+   on the decoder's image is the OTHER side condition, [in_lim64 (D.add s d)]: see
+   [decoded_end_beyond_limit_refuted] in Proofs/EncObjectsRT.v.
+   Proved: the integer-valued case (all times of a map written in whole milliseconds): *)
+Theorem decoded_times_ok_partial a b : Z.abs a < 2 ^ 53 -> 0 <= b < 2 ^ 53 -> Z.abs (a + b) < 2 ^ 53 ->
+  spinner_time_ok (D.of_Z a) (D.of_Z b) /\ hold_time_ok (D.of_Z a) (D.of_Z b).
+Proof. exact (int_times_ok a b). Qed.
